@@ -779,6 +779,28 @@ func (se *specEnv) evalCall(n *ast.CallExpr) Val {
 			idx := se.coerce(arg(1), types.Typ[types.Int])
 			h := e.heapTerm(se.pre, sl.Elem(), true)
 			return Val{term: fmt.Sprintf("(select (select %s (s_base %s)) %s)", h, sv.term, e.idxAdd(fmt.Sprintf("(s_off %s)", sv.term), e.toIdx(idx))), typ: sl.Elem()}
+		case "anyblock": // a source-level local defined in a block that need not dominate this point:
+			// the unique SSA value carrying that name; on paths that did not execute its
+			// definition it is an unconstrained value, so the clause must hold for all of them
+			nm, ok := n.Args[0].(*ast.Ident)
+			if !ok {
+				panic("spec: anyblock needs a local's name")
+			}
+			var found *Val
+			for i := range se.f.defs {
+				d := &se.f.defs[i]
+				if d.name != nm.Name {
+					continue
+				}
+				if found != nil && found.term != d.val.term {
+					panic("spec: anyblock(" + nm.Name + ") is ambiguous")
+				}
+				found = &d.val
+			}
+			if found == nil {
+				panic("spec: unknown name " + nm.Name)
+			}
+			return *found
 		case "wf": // well-formed slice or string header
 			return boolVal(e.wfSlice(arg(0).term))
 		case "bv2nat", "nat": // unsigned value of an integer as int (for mixed-width arithmetic in bv mode)
